@@ -86,6 +86,11 @@ func (c *context) RecvMsg() (*protocol.Message, error) {
 	s := c.s
 
 	tq := nilQ
+	s.Lock()
+	if c.recvExpire > 0 {
+		tq = time.After(c.recvExpire)
+	}
+	s.Unlock()
 	for {
 		s.Lock()
 		if c.closed {
@@ -95,14 +100,9 @@ func (c *context) RecvMsg() (*protocol.Message, error) {
 		cq := c.closeQ
 		rq := s.recvQ
 		zq := s.sizeQ
-		expTime := c.recvExpire
 		c.backtrace = nil
 		c.recvPipe = nil
 		s.Unlock()
-
-		if tq == nil && expTime > 0 {
-			tq = time.After(expTime)
-		}
 
 		select {
 		case msg := <-rq:
